@@ -3,6 +3,7 @@
     [Rep val lbl c s ess]: the arrays of state [s] are the images of the entity lists [ess] (one list per array axis):
     every cell is [val] of the entities at its coordinates, every label array present is the image of its axis'
     entities under the labelling [lbl] of its field; [no_loss s s']: no label array present in [s] is missing in [s'].
+    Definitions named [old_...] model FORMER code of pybrops (repaired since) and occur only in regression witnesses.
     [val] and [lbl] are arbitrary (so duplicated labels are covered), the entity type is arbitrary. *)
 From PV Require Import Lib.Common Model.C03_LMat Proofs.C03_LMat Gen.C03_Dispatch Gen.C03_MetaReset Proofs.C03_Tables.
 Local Open Scope Z_scope.
@@ -79,34 +80,46 @@ Theorem C03_append_refines : forall (ent : Type) (val : list ent -> Z) (lbl : na
 Proof. intros ent val lbl c s k v ess us a s' W R Hk Ht. exact (append_refines val lbl c s k v ess us a W R Hk Ht s'). Qed.
 Print Assumptions C03_append_refines.
 
-(** insert / incorp with a slice, index list, mask, or a scalar on array axis 0 ([scalar_free]): the entity list is
-    gathered from old ++ new by numpy's insertion plan, the same plan for the cells and for every label array *)
-Theorem C03_insert_refines_partial : forall (ent : Type) (val : list ent -> Z) (lbl : nat -> nat -> ent -> lab) c s k v ess us a o s',
+(** insert / incorp with any index (scalar, slice, index list, mask) on any array axis: the entity list is gathered from
+    old ++ new by numpy's insertion plan, the same plan for the cells and for every label array *)
+Theorem C03_insert_refines : forall (ent : Type) (val : list ent -> Z) (lbl : nat -> nat -> ent -> lab) c s k v ess us a o s',
   wf_cls c -> Rep val lbl c s ess -> (k < length (axs c))%nat -> taxes c k = [a] ->
-  RepOpd val lbl (pol_ins (sch c k)) c k s v ess us -> scalar_free o a -> op_insert c s k o v = OK s' ->
+  RepOpd val lbl (pol_ins (sch c k)) c k s v ess us -> op_insert c s k o v = OK s' ->
   exists ps, plan_insert (length (nth a ess [])) (length us) o = Some ps /\
              Rep val lbl c s' (upd a (pick ps (nth a ess [] ++ us)) ess) /\ (drop_other c = false -> no_loss s s').
 Proof. intros ent val lbl c s k v ess us a o s' W R Hk Ht. exact (insert_refines val lbl c s k v ess us a W R Hk Ht o s'). Qed.
-Print Assumptions C03_insert_refines_partial.
+Print Assumptions C03_insert_refines.
 
-Theorem C03_incorp_refines_partial : forall (ent : Type) (val : list ent -> Z) (lbl : nat -> nat -> ent -> lab) c s k v ess us a o s',
+Theorem C03_incorp_refines : forall (ent : Type) (val : list ent -> Z) (lbl : nat -> nat -> ent -> lab) c s k v ess us a o s',
   wf_cls c -> Rep val lbl c s ess -> (k < length (axs c))%nat -> taxes c k = [a] ->
-  RepOpd val lbl (pol_adj (sch c k)) c k s v ess us -> scalar_free o a -> op_incorp c s k o v = OK s' ->
+  RepOpd val lbl (pol_adj (sch c k)) c k s v ess us -> op_incorp c s k o v = OK s' ->
   exists ps, plan_insert (length (nth a ess [])) (length us) o = Some ps /\
              Rep val lbl c s' (upd a (pick ps (nth a ess [] ++ us)) ess) /\ no_loss s s'.
 Proof. intros ent val lbl c s k v ess us a o s' W R Hk Ht. exact (incorp_refines val lbl c s k v ess us a W R Hk Ht o s'). Qed.
-Print Assumptions C03_incorp_refines_partial.
+Print Assumptions C03_incorp_refines.
 
-(** a bare integer index on an inner array axis: the code (numpy.insert) inserts the block transposed *)
-Theorem C03_scalar_insert_refuted :
+(** a bare integer index is the one-element index list, for every class, axis, operand and both forms *)
+Theorem C03_insert_scalar_as_list : forall c s k i v, op_insert c s k (OInt i) v = op_insert c s k (OList [i]) v.
+Proof. exact insert_scalar_as_list. Qed.
+Print Assumptions C03_insert_scalar_as_list.
+Theorem C03_incorp_scalar_as_list : forall c s k i v, op_incorp c s k (OInt i) v = op_incorp c s k (OList [i]) v.
+Proof. exact incorp_scalar_as_list. Qed.
+Print Assumptions C03_incorp_scalar_as_list.
+
+(** regression witness of the repaired finding C03-scalar-insert-moveaxis: a bare integer index on an inner array axis
+    inserts the block as the index list [1] does (conjuncts 3, 4); the FORMER code [old_op_insert], which handed the
+    scalar to numpy.insert, inserted the block transposed (last conjunct) *)
+Theorem C03_old_scalar_insert_refuted :
   Rep w_val w_lbl cDenseTaxaVariantMatrix w1_s [[0; 1]; [0; 1; 2]]%nat /\
   RepOpd w_val w_lbl (pol_ins (sch cDenseTaxaVariantMatrix 1)) cDenseTaxaVariantMatrix 1 w1_s w1_v [[0; 1]; [0; 1; 2]]%nat [5; 6]%nat /\
   (exists s', op_insert cDenseTaxaVariantMatrix w1_s 1 (OList [1]) w1_v = OK s' /\
               data s' = build [[0; 1]; [0; 5; 6; 1; 2]]%nat w_val) /\
   (exists s', op_insert cDenseTaxaVariantMatrix w1_s 1 (OInt 1) w1_v = OK s' /\
+              data s' = build [[0; 1]; [0; 5; 6; 1; 2]]%nat w_val /\ data s' = T2 [[0; 5; 6; 1; 2]; [10; 15; 16; 11; 12]]) /\
+  (exists s', old_op_insert cDenseTaxaVariantMatrix w1_s 1 (OInt 1) w1_v = OK s' /\
               data s' <> build [[0; 1]; [0; 5; 6; 1; 2]]%nat w_val /\ data s' = T2 [[0; 5; 15; 1; 2]; [10; 6; 16; 11; 12]]).
-Proof. exact scalar_insert_refuted. Qed.
-Print Assumptions C03_scalar_insert_refuted.
+Proof. exact scalar_insert_witness. Qed.
+Print Assumptions C03_old_scalar_insert_refuted.
 
 (** insert on a square-taxa matrix: one array axis only, the result is 3 x 2 with 3 taxa labels *)
 Theorem C03_square_insert_refuted :
@@ -282,8 +295,8 @@ Example C03_hyps_satisfiable :
   wf_cls cDenseTaxaVariantMatrix /\
   Rep w_val w_lbl cDenseTaxaVariantMatrix w1_s [[0; 1]; [0; 1; 2]]%nat /\
   RepOpd w_val w_lbl (pol_ins (sch cDenseTaxaVariantMatrix 1)) cDenseTaxaVariantMatrix 1 w1_s w1_v [[0; 1]; [0; 1; 2]]%nat [5; 6]%nat /\
-  scalar_free (OList [1]) 1 /\ taxes cDenseTaxaVariantMatrix 1 = [1%nat].
+  taxes cDenseTaxaVariantMatrix 1 = [1%nat].
 Proof.
-  split; [apply wf_clsb_wf; reflexivity|]. destruct scalar_insert_refuted as (H1 & H2 & _).
-  split; [exact H1|]. split; [exact H2|]. split; [exact I|reflexivity].
+  split; [apply wf_clsb_wf; reflexivity|]. destruct scalar_insert_witness as (H1 & H2 & _).
+  split; [exact H1|]. split; [exact H2|reflexivity].
 Qed.
